@@ -88,7 +88,8 @@ InitSt ==
     \* loop-local
     pc |-> "idle", lflags |-> 0, pol |-> "exact", iters |-> 0, tmo |-> 0, n |-> 0, cnt1 |-> 0,
     qi |-> 0, blocked |-> FALSE, forced |-> FALSE, cblog |-> <<>>, ret |-> 0, gctr |-> 0,
-    sigleft |-> 0, cur |-> 0, done |-> FALSE, wi |-> 0, wq |-> <<>> ]
+    sigleft |-> 0, cur |-> 0, done |-> FALSE, wi |-> 0, wq |-> <<>>,
+    fuzz |-> FALSE ]   \* the maxima depend on the (unspecified) order of a tie that occurred
 
 ----------------------------------------------------------------------------
 (* Queue primitives: the event_queue_insert_* / remove_* functions with their
@@ -189,7 +190,8 @@ TimeoutProcessRec(S) ==
   IF Heap(S) = {} THEN S
   ELSE LET x == HeapTop(S) IN
        IF S.ev[x].dl > S.now THEN S
-       ELSE TimeoutProcessRec(FireTimeout(S, x, <<S.gctr, S.ev[x].dl + 1>>))
+       ELSE LET tie == \E y \in Heap(S) \ {x} : S.ev[y].dl = S.ev[x].dl
+            IN TimeoutProcessRec(FireTimeout([S EXCEPT !.fuzz = @ \/ tie], x, <<S.gctr, S.ev[x].dl + 1>>))
 
 RECURSIVE CommonTimeoutCb(_, _)
 CommonTimeoutCb(S, q) ==
@@ -237,7 +239,8 @@ ApplyOp(S, op) ==
     [] op.a = "break" -> [s |-> [S EXCEPT !.brk = TRUE], r |-> 0]
     [] op.a = "cont" -> [s |-> [S EXCEPT !.cont = TRUE], r |-> 0]
     [] op.a = "maxclr" -> [s |-> [S EXCEPT !.actmax = IF op.n % 2 = 1 THEN 0 ELSE @,
-                                              !.cntmax = IF op.n >= 4 THEN 0 ELSE @], r |-> 0]
+                                              !.cntmax = IF op.n >= 4 THEN 0 ELSE @,
+                                              !.fuzz = IF op.n = 5 THEN FALSE ELSE @], r |-> 0]
     [] op.a = "wnew" -> [s |-> [S EXCEPT !.watch = Append(@, [id |-> op.e, k |-> op.k, s |-> op.s, x |-> op.x])], r |-> 0]
     [] op.a = "wfree" -> [s |-> [S EXCEPT !.watch = SelectSeq(@, LAMBDA w: w.id # op.e)], r |-> 0]
     [] OTHER -> [s |-> S, r |-> -99]
@@ -276,7 +279,8 @@ Obs(S, r) ==
     p |-> [i \in 1..NEv |-> IF i \in Pool THEN PendMask(S, i) ELSE -1],
     d |-> [i \in 1..NEv |-> IF i \in Pool /\ S.ev[i].alloc /\ "TMO" \in S.ev[i].fl THEN S.ev[i].dl ELSE -1],
     pr |-> [i \in 1..NEv |-> IF i \in Pool /\ S.ev[i].alloc THEN S.ev[i].pri ELSE -1],
-    na |-> NAct(S), ne |-> S.cnt, ma |-> S.actmax, me |-> S.cntmax,
+    na |-> NAct(S), ne |-> S.cnt,
+    ma |-> IF S.fuzz THEN [_any |-> TRUE] ELSE S.actmax, me |-> IF S.fuzz THEN [_any |-> TRUE] ELSE S.cntmax,
     gb |-> IF S.brk THEN 1 ELSE 0, ge |-> IF S.term THEN 1 ELSE 0 ]
 LoopObs(S) == [Obs(S, S.ret) EXCEPT !.r = S.ret] @@ [cb |-> S.cblog, bl |-> IF S.blocked THEN 1 ELSE 0, it |-> S.iters]
 
@@ -440,7 +444,7 @@ Wait ==
                ELSE [S0 EXCEPT !.now = @ + (CASE S0.pol = "exact" -> S0.tmo
                                                [] S0.pol = "over" -> S0.tmo + 1
                                                [] OTHER -> IF S0.tmo > 1 THEN S0.tmo - 1 ELSE S0.tmo)]
-         S2 == ActivateSet(S1, rdy, <<S1.gctr, 0>>)
+         S2 == ActivateSet([S1 EXCEPT !.fuzz = @ \/ Cardinality(rdy) >= 2], rdy, <<S1.gctr, 0>>)
      IN st' = [S2 EXCEPT !.pc = "check", !.wq = SelectSeq(S2.watch, LAMBDA w: w.k = "check")]
   /\ UNCHANGED hist
 
@@ -482,9 +486,14 @@ AfterCb(S) ==
              ELSE [S EXCEPT !.pc = "pq", !.qi = S.runprio + 1, !.n = 0, !.cur = 0])
        ELSE [S EXCEPT !.cur = 0]
 
+(* Harness bound: callbacks that keep re-activating each other would spin for ever
+   inside one pass (as in the real library); after MaxLog logged callbacks in one
+   loop call the harness calls loopbreak from inside the callback. *)
+MaxLog == 12
 RunScript(S, x) ==
-  LET sc == S.script[x] IN
-  IF x \in UserEv /\ sc.a # "none" /\ OpLegal(S, sc, x) THEN ApplyOp(S, sc).s ELSE S
+  LET sc == S.script[x]
+      S1 == IF x \in UserEv /\ sc.a # "none" /\ OpLegal(S, sc, x) THEN ApplyOp(S, sc).s ELSE S
+  IN IF Len(S1.cblog) >= MaxLog THEN [S1 EXCEPT !.brk = TRUE, !.forced = TRUE] ELSE S1
 
 LogCb(S, x, kind) == [S EXCEPT !.cblog = Append(@, [e |-> x, r |-> ResMask(S.ev[x].res), k |-> kind, g |-> S.ev[x].g])]
 
@@ -543,8 +552,21 @@ LoopReturn ==
 LoopStep == IterTop \/ Prepare \/ Wait \/ Check \/ TimeoutProcess \/ ProcessStart \/ PickQueue
             \/ RunCallback \/ SignalCall \/ LoopReturn
 
+(* event_base_free / event_base_free_nofinalize: pending finalizers run (in
+   active-queue order) exactly once when run = 1; once-events are dropped without
+   running; nothing can follow. *)
+RECURSIVE FlatAq(_, _)
+FlatAq(S, p) == IF p >= NPrio THEN <<>> ELSE S.aq[p] \o FlatAq(S, p + 1)
+BaseFree ==
+  /\ st.pc = "idle" /\ "basefree" \in Acts
+  /\ \E run \in {0, 1} :
+       LET pend == SelectSeq(FlatAq(st, 0) \o st.lq, LAMBDA x: "FIN" \in st.ev[x].fl)
+           log == [i \in 1..Len(pend) |-> [e |-> pend[i], r |-> 64, k |-> "fin", g |-> <<>>]]
+       IN /\ st' = [st EXCEPT !.pc = "dead"]
+          /\ hist' = Append(hist, [a |-> "basefree", n |-> run, o |-> [r |-> 0, cb |-> IF run = 1 THEN log ELSE <<>>]])
+
 Init == st = InitSt /\ hist = <<>>
-Next == Api \/ Env \/ SetScript \/ ApiLoop \/ LoopStep
+Next == Api \/ Env \/ SetScript \/ ApiLoop \/ LoopStep \/ BaseFree
 Spec == Init /\ [][Next]_vars
 
 ----------------------------------------------------------------------------
@@ -573,7 +595,7 @@ NotLate == st.pc \in {"pstart", "pq"} => \A x \in Heap(st) : st.ev[x].dl > st.no
 (* C01 NoEarly: a pending EV_TIMEOUT result implies the deadline was reached *)
 NoEarly == \A x \in Ent : ("ACT" \in st.ev[x].fl /\ "T" \in st.ev[x].res /\ st.ev[x].g # <<>> /\ Len(st.ev[x].g) = 2 /\ st.ev[x].g[2] > 0)
                            => st.ev[x].g[2] - 1 <= st.now
-TypeOK == st.pc \in {"idle", "top", "prep", "wait", "check", "tproc", "pstart", "pq", "run", "ret"}
+TypeOK == st.pc \in {"dead", "idle", "top", "prep", "wait", "check", "tproc", "pstart", "pq", "run", "ret"}
 
 
 (* C03: a callback of priority p starts only when no callback of a smaller
@@ -590,7 +612,11 @@ Inv == TypeOK /\ QueueFlagOK /\ CountOK /\ MaxOK /\ CommonQueueOK /\ OnlyAllocQu
 ----------------------------------------------------------------------------
 (* Generation: bound the number of outer calls; print complete histories. *)
 GenConstraint == Len(hist) <= D
-Emit == (Len(hist) = D /\ st.pc = "idle") => PrintT(ToJson(hist))
+Emit == ((Len(hist) = D /\ st.pc = "idle") \/ st.pc = "dead") => PrintT(ToJson(hist))
+(* generation without equal heap deadlines (used when callbacks have side effects,
+   where the unspecified order of equal-deadline timers would matter) *)
+NoHeapTies == \A x, y \in Heap(st) : x # y => st.ev[x].dl # st.ev[y].dl
+GenConstraintNT == GenConstraint /\ NoHeapTies
 EmitSim == TRUE
 StateView == <<st>>
 =============================================================================
